@@ -31,7 +31,7 @@ RULE = (
 )
 ASSUMPTIONS = ["the text is scanned, not typeset (no TeX engine)", "family names contain no backslash (a doubled backslash in a label is a line break)"]
 BUDGET = {"quick": 900, "thorough": 3000}
-COL = {"r": "FF0000", "g": "FADBCE", "b": "0000FF"}   # "g": a hex colour without any decimal digit
+COL = {"r": "FF0000", "g": "FADBCE", "b": "00aaff"}   # "g": no decimal digit; "b": lower-case hex letters
 
 
 def colour_menu(O):
